@@ -6,6 +6,8 @@
 (*          digests of everything else in the posterior state                        *)
 (*   par    ParallelizedAccumulation() of the first round: t' and the gas list u     *)
 (*   outer  OuterAccumulation(): gas list over all rounds, number of reports         *)
+(*   single SingleServiceAccumulation() of every receiver on the first round's        *)
+(*          transfers handed over in a seeded arbitrary order (Delta1 takes any t)    *)
 (* Demanded (statement of C22): every entry point yields ONE group (identical        *)
 (* posterior whatever the schedule / map order), and that group is the Gray-Paper    *)
 (* layer's unique result (AccRounds!GP): recorded order, balances, t', u.            *)
@@ -41,9 +43,21 @@ OuterWhy(e, scn, gp) ==
           ELSE (IF o.u # gp.u THEN {"gas_list_order_differs_from_gray_paper"} ELSE {})
                \cup (IF o.n # Len(scn.reports) THEN {"accumulated_report_count_differs"} ELSE {})
 
+\* Delta1 on its own: any transfer sequence tin, the service sees its transfers by sender, then by position in tin
+SingleWhy(x, scn) ==
+  IF Len(x.groups) # 1 THEN {"nondeterministic_single_output"}
+  ELSE LET o == x.groups[1].obs
+           tin == ProjT(x.tin)
+           want == Single(scn, E0(scn), x.s, InT(tin, x.s), <<>>)
+       IN IF o.err # "" \/ o.panic # "" THEN {"accumulation_failed"}
+          ELSE (IF Keys(o.store) # [k \in 1..Len(o.store) |-> k - 1] \/ Proj(o.store) # want.store
+                  THEN {"single_service_order_differs_from_gray_paper"} ELSE {})
+               \cup (IF o.spent # want.spent \/ ProjT(o.t) # want.out THEN {"single_service_result_differs_from_gray_paper"} ELSE {})
+
 Why(e) == LET scn == Scn(e)
               gp == GP(scn)
           IN StfWhy(e, scn, gp) \cup ParWhy(e, scn) \cup OuterWhy(e, scn, gp)
+             \cup UNION {SingleWhy(e.single[i], scn) : i \in 1..Len(e.single)}
 
 TInit == l = 1 /\ devs = {} /\ bad = {}
 TNext == /\ l <= Len(Trace)
